@@ -1114,7 +1114,7 @@ export class TypedArrayRuntype extends BaseRuntype {
   validate(_ctx: ValidateContext, input: unknown): boolean {
     const ctor = this.getCtor();
     if (ctor == null) return false;
-    return input instanceof ctor;
+    return input instanceof ctor && ArrayBuffer.isView(input);
   }
   parseAfterValidation(_ctx: ParseContext, input: unknown): unknown {
     return input;
